@@ -81,6 +81,8 @@ inductive Err where
   | unicodeDecode
   deriving Repr, DecidableEq
 
+deriving instance DecidableEq for Except
+
 /-- `bytes.decode('ascii')` -/
 def asciiDecode (bs : List Nat) : Except Err Str :=
   if bs.all (· < 128) then .ok (bs.map Char.ofNat) else .error .unicodeDecode
@@ -88,7 +90,7 @@ def asciiDecode (bs : List Nat) : Except Err Str :=
 def dotLas : Str := ['.', 'l', 'a', 's']
 
 /-- file-name part of RP66V1 `las_file_name`: `stem + f'_{lf}_{ident}' + '.las'` -/
-def rpName (stem : Str) (lf : Nat) (ident : Str) : Str := stem ++ '_' :: dec lf ++ '_' :: ident ++ dotLas
+def rpName (stem : Str) (lf : Nat) (ident : Str) : Str := stem ++ ('_' :: (dec lf ++ ('_' :: (ident ++ dotLas))))
 
 /-- `RP66V1/ToLAS.py las_file_name(path_out, logical_file_index, frame_array_ident)`.
 The extension of `path_out` (which is `dir_out/<input file name>`) is dropped: F14. -/
@@ -99,10 +101,10 @@ def lasFileName (pathOut : Str) (lf : Nat) (ident : List Nat) : Except Err Str :
   | .ok id => .ok (join (dirname pathOut) (rpName stem lf id))
 
 /-- `LIS/ToLAS.py write_las_file`: `f'{path_out}_{logical_file_index}.las'` -/
-def lisOut (pathOut : Str) (i : Nat) : Str := pathOut ++ '_' :: dec i ++ dotLas
+def lisOut (pathOut : Str) (i : Nat) : Str := pathOut ++ ('_' :: (dec i ++ dotLas))
 
 /-- `BIT/ToLAS.py single_bit_path_to_las_path`: `f'{path_out}_{f:04d}.las'` -/
-def bitOut (pathOut : Str) (f : Nat) : Str := pathOut ++ '_' :: pad4 f ++ dotLas
+def bitOut (pathOut : Str) (f : Nat) : Str := pathOut ++ ('_' :: (pad4 f ++ dotLas))
 
 /-- `dirWalk`: one (input path, output path) per directory entry; `if theOut:` else `''`. -/
 def walkPair (dirIn dirOut name : Str) : Str × Str :=
@@ -207,6 +209,13 @@ def OutputsDisjoint (conv : P × B → R × List (O × T)) (tasks : List (P × B
 
 /-- the input paths are distinct (they are the entries of a directory listing) -/
 def PathsDistinct (tasks : List (P × B)) : Prop := (tasks.map Prod.fst).Nodup
+
+instance [DecidableEq O] (conv : P × B → R × List (O × T)) (tasks : List (P × B)) :
+    Decidable (OutputsDisjoint conv tasks) := by
+  unfold OutputsDisjoint; exact inferInstance
+
+instance [DecidableEq P] (tasks : List (P × B)) : Decidable (PathsDistinct tasks) := by
+  unfold PathsDistinct; exact inferInstance
 
 /-- two batch states are the same results dict and the same output tree (as maps: Python `dict.__eq__`
 and "the same set of files with the same contents" ignore insertion order) -/
